@@ -102,7 +102,9 @@ class UserInfo(Endpoint):
                 enc_alg=enc_alg,
             )
 
-            resp = _jwt.pack(response_args, recv=client_id)
+            # HS*: the MAC key is the client's secret (OIDC core 10.1), filed under the client's id
+            _owner = client_id if sign_alg.startswith("HS") else ""
+            resp = _jwt.pack(response_args, recv=client_id, issuer_id=_owner)
             content_type = "application/jwt"
         else:
             if isinstance(response_args, dict):
